@@ -196,6 +196,44 @@ class MultitaskMultivariateNormal(MultivariateNormal):
         """
         return cls.from_batch_mvn(mvn.expand(torch.Size([num_tasks]) + mvn.batch_shape), task_dim=0)
 
+    def add_jitter(self, noise: float = 1e-4) -> "MultitaskMultivariateNormal":
+        return self.__class__(
+            self.mean, self.lazy_covariance_matrix.add_jitter(noise), interleaved=self._interleaved
+        )
+
+    def _covar_in_own_layout(self, other: "MultitaskMultivariateNormal") -> LinearOperator:
+        # The covariance of `other`, ordered like this distribution's covariance (point-major if interleaved, else task-major)
+        covar = other.lazy_covariance_matrix
+        if other._interleaved == self._interleaved:
+            return covar
+        num_points, num_tasks = self._output_shape[-2:]
+        perm = torch.arange(num_points * num_tasks, device=self.mean.device)
+        perm = perm.view(num_tasks, num_points) if self._interleaved else perm.view(num_points, num_tasks)
+        perm = perm.t().reshape(-1)
+        return covar[..., perm, :][..., :, perm]
+
+    def __add__(self, other):
+        if isinstance(other, MultitaskMultivariateNormal):
+            return self.__class__(
+                mean=self.mean + other.mean,
+                covariance_matrix=(self.lazy_covariance_matrix + self._covar_in_own_layout(other)),
+                interleaved=self._interleaved,
+            )
+        elif isinstance(other, int) or isinstance(other, float):
+            return self.__class__(self.mean + other, self.lazy_covariance_matrix, interleaved=self._interleaved)
+        return super().__add__(other)
+
+    def __mul__(self, other):
+        if not (isinstance(other, int) or isinstance(other, float)):
+            raise RuntimeError("Can only multiply by scalars")
+        if other == 1:
+            return self
+        return self.__class__(
+            mean=self.mean * other,
+            covariance_matrix=self.lazy_covariance_matrix * (other**2),
+            interleaved=self._interleaved,
+        )
+
     def expand(self, batch_size):
         new_mean = self.mean.expand(torch.Size(batch_size) + self.mean.shape[-2:])
         covar = self.lazy_covariance_matrix
